@@ -6,6 +6,7 @@ per-row join) and for the reference semantics.  The equality of the planner's ro
 join of the reference semantics is tied by the `query` correspondence (mode optional) — partial.
 -/
 import BW.Proofs.Query
+import BW.Proofs.PlannerStep11
 
 namespace BW.Props.C10
 open BW.Model BW.Spec BW.Proofs.Query
@@ -59,6 +60,31 @@ theorem spec_optional_nomatch (scan : List Triple) (glo ghi : Option Int) (r : R
 /-! Non-vacuity -/
 example : joinRow [([63, 97], Cell.null)] true [[63, 98]] [] = [[([63, 97], Cell.null), ([63, 98], Cell.null)]] := by decide
 
+/-! ### The planner's OPTIONAL step is the reference's left outer join -/
+
+/-- Whatever strategy `processClause` picks for an OPTIONAL clause (skip of a clause of constants, keep after
+    a probe, `LeftOptionalJoin` with a clause sharing no binding, per-row specialisation otherwise), the table
+    it leaves is the reference's left outer join of the table with the clause: every row joined with each
+    match that agrees with it, or kept once with the clause's new bindings unset when there is none — as a set
+    of rows, up to anchor zone (hypotheses as for C03's `select_pattern_eq_solutions`). -/
+theorem planner_optional_is_left_outer_join {gs : List QGraph} {F : Facts} (hF : BW.Proofs.Store.Facts.WF F = true)
+    (hg : BW.Proofs.Planner.GraphsOK F gs) (U : BW.Proofs.Planner.Universe gs) {tbl tbl' : Tbl} {unres : Bool}
+    (ht : BW.Proofs.Planner.TblOK U tbl) (hB : tbl.bindings ≠ []) {c : Clause} {lo : QOpts}
+    (hc : BW.Proofs.Planner.PatClause U c) (hopt : c.optional = true) (hfil : lo.filter = none)
+    (h : processClause F gs tbl c lo 0 = .ok (tbl', unres)) :
+    unres = false ∧
+    BW.Proofs.Planner.SetEq tbl'.rows
+      (tbl.rows.flatMap (BW.Proofs.Planner.specJoin (gs.flatMap BW.Proofs.Planner.scanOf) (BW.Proofs.Planner.nl lo.lower)
+        (BW.Proofs.Planner.nl lo.upper) c)) := by
+  obtain ⟨a1, a2, a3, a4⟩ := BW.Proofs.Planner.processClause_spec hF hg U ht hc.wf hc.consts hc.inU hfil
+    (fun hb => absurd hb hB) (fun he hb => absurd (hc.noBareAliases he) hb) h
+  rw [BW.Proofs.Planner.absRows_of_ne hB] at a3 a4
+  have hu : unres = false := (processClause_optional_keeps F gs tbl c lo 0 tbl' unres hopt h).1
+  refine ⟨hu, ?_⟩
+  have := a3 hu
+  rw [BW.Proofs.Planner.absRows_of_ne a2, BW.Proofs.Planner.joinClause_eq] at this
+  exact this
+
 end BW.Props.C10
 
 #print axioms BW.Props.C10.optional_never_drops
@@ -68,3 +94,4 @@ end BW.Props.C10
 #print axioms BW.Props.C10.left_optional_join_keeps
 #print axioms BW.Props.C10.spec_optional_keeps
 #print axioms BW.Props.C10.spec_optional_nomatch
+#print axioms BW.Props.C10.planner_optional_is_left_outer_join
